@@ -363,6 +363,7 @@ type mwRun struct {
 	farVacuumed    bool
 	interrupted    map[string]bool // superseded versions present during a vacuum that ran under a fault
 	hadRetireFault bool
+	keyTimeWriter  map[string]string // key@time -> writer and effect of the statement that used it
 	obsN           int
 	opsAdded       int
 	ro             *roState
@@ -664,8 +665,46 @@ func (r *mwRun) quiescence(where string) error {
 	return nil
 }
 
+// crossWriterTie enforces the precondition of the properties' quantifiers ("pairwise distinct
+// write times on conflicting rows"): a statement that touches a key at a write time at which a
+// DIFFERENT writer already touched that key is outside the domain (the row status of such a
+// pair depends on the merge order). The generators construct distinct times; this is the net
+// under them (a hard-coded pattern time once coincided with a drawn one).
+func (r *mwRun) crossWriterTie(s MWStep) bool {
+	if s.Op != "stmt" && s.Op != "txn" {
+		return false
+	}
+	if r.keyTimeWriter == nil {
+		r.keyTimeWriter = map[string]string{}
+	}
+	seen := map[string]string{}
+	for _, st := range s.Stmts {
+		for ki, k := range st.Keys {
+			id := fmt.Sprintf("%s@%d", k.Cell(), st.T)
+			// what the statement does to this key; a byte-identical retry by another writer is
+			// inside the quantifier
+			what := fmt.Sprintf("%s %v", st.Kind, st.Cols)
+			if ki < len(st.Vals) {
+				what += fmt.Sprint(st.Vals[ki])
+			}
+			if prev, ok := r.keyTimeWriter[id]; ok && !strings.HasPrefix(prev, fmt.Sprintf("w%d ", s.W)) && prev[strings.Index(prev, " ")+1:] != what {
+				return true
+			}
+			seen[id] = fmt.Sprintf("w%d %s", s.W, what)
+		}
+	}
+	for id, v := range seen {
+		r.keyTimeWriter[id] = v
+	}
+	return false
+}
+
 func (r *mwRun) step(i int, s MWStep) error {
 	where := fmt.Sprintf("step %d (%s w%d)", i, s.Op, s.W)
+	if r.crossWriterTie(s) {
+		r.o.Exclude("step-dropped:cross-writer-same-key-same-write-time(outside-the-quantifier)")
+		return nil
+	}
 	if r.c.Mode == "c11" && (s.Op == "stmt" || s.Op == "txn" || s.Op == "retry" || s.Op == "refresh") {
 		// s3db_version changes exactly when the committed contents change
 		w := r.ws[s.W]
